@@ -89,6 +89,7 @@ def _execute(program, stats, hist):
     declared = DT[pspec.get("dtype")]          # reference state machine
     user_buffers = []
     simulated = False
+    sim_half = False   # the current series were simulated in a 16-bit dtype (values may be NaN / out of domain)
     cast_since_sim = False
     seqnames = []
     hazard = False
@@ -190,6 +191,7 @@ def _execute(program, stats, hist):
                     stats.probe("resim_after_cast")
                     hazard = True
                 simulated = True
+                sim_half = half
                 cast_since_sim = False
                 unknown_old = False
                 stats.market_years += op["n_paths"] * d.maturity
@@ -241,7 +243,8 @@ def _execute(program, stats, hist):
         # ---- computed outputs carry the dtype of the series they are computed from
         if simulated and "spot" in bufs:
             sd = bufs["spot"].dtype
-            half = sd in (torch.float16, torch.bfloat16)
+            # exceptions are tolerated while the values stem from a 16-bit simulation, even after a cast to a wider dtype
+            half = sd in (torch.float16, torch.bfloat16) or sim_half
             outs = {}
             try:
                 outs["payoff"] = d.payoff()
@@ -276,7 +279,7 @@ def _execute(program, stats, hist):
                 if v.dtype != sd:
                     raise Violation(ID, "output_dtype", k.split(":")[0], {"what": k, "dtype": str(v.dtype), "series_dtype": str(sd), "sequence": seqnames}, seq)
             # loss / price re-simulate: they must come out in the declared (or current default) dtype
-            if not half and a in ("simulate", "simulate_derivative", "to_f64", "to_f32", "double", "float", "default_f64", "default_f32"):
+            if eff not in (torch.float16, torch.bfloat16) and a in ("simulate", "simulate_derivative", "to_f64", "to_f32", "double", "float", "default_f64", "default_f32"):
                 try:
                     torch.manual_seed(op["torch_seed"])
                     hedger = pfn.Hedger(pfn.Naked(), ["zeros"])
@@ -286,6 +289,7 @@ def _execute(program, stats, hist):
                     raise Violation(ID, "op_raised", "loss_price:%s" % type(e).__name__, {"error": repr(e)[:300]}, seq)
                 stats.probe("loss_price_checked")
                 unknown_old = False
+                sim_half = False  # the series have just been re-simulated in a full-precision dtype
                 for k, v in (("compute_loss", lo), ("price", pr)):
                     stats.checks += 1
                     if v.dtype != eff:
